@@ -14,7 +14,7 @@
    unregisters itself.  BugNoSelfHeal re-creates the tree as found (D25): a link whose loss was reported before it was
    registered stays registered for ever. *)
 EXTENDS Naturals, FiniteSets, Sequences, TLC
-CONSTANTS Addr, Ident, MaxLinks, BugNoLostOnUsurp, BugNoSelfHeal
+CONSTANTS Addr, Ident, MaxLinks, BugNoLostOnUsurp, BugNoSelfHeal, BugEstUnordered
 VARIABLES n,          \* links created so far
           def,        \* [1..n -> [addr, id]]
           open,       \* links whose session is open
@@ -36,10 +36,11 @@ Session(a, i) ==
      /\ pendingEst' = pendingEst \cup {l}
      /\ UNCHANGED reported
 \* HandleLinkEstablished reaches the controller: it replaces a registered link with the same uuid
-\* (environment assumption A1, not established by this work: the established reports of one transport reach the controller in the
-\*  order in which the sessions were created; without it the late report of an older link with the same uuid would evict the newer one)
+\* The established reports of one transport reach the controller in the order in which the sessions were created (the transport queues its
+\* notifications, the controller handles them in arrival order).  BugEstUnordered re-creates the tree as found (D26): reports are delivered
+\* by independent goroutines / deferred by a try-lock, and the late report of an older link with the same uuid evicts the newer one.
 EstCallback(l) ==
-  /\ l \in pendingEst /\ (\A k \in pendingEst : l <= k) /\ pendingEst' = pendingEst \ {l}
+  /\ l \in pendingEst /\ (BugEstUnordered \/ \A k \in pendingEst : l <= k) /\ pendingEst' = pendingEst \ {l}
   /\ reported' = {r \in reported : Uuid(r) # Uuid(l)} \cup {l}
   /\ UNCHANGED <<n, def, open, cur, pendingLost>>
 \* the accept pump of a registered link ends because the link is closed: the controller drops it
